@@ -232,10 +232,10 @@ def analyse(did, out):
         act = reset_polarity(el)
         todo = list(htr.items()) + (list(tr.items()) if nresets <= 1 else [])   # period traces cannot name several reset pins
         for tag, t in todo:
-            m = S.replay_trace(el, t, reset_active=act, stats=r["stats"])
+            m = S.replay_trace(el, t, reset_active=act, stats=r["stats"], meta=meta)
             if m:
                 m["trace"] = tag
-                if known_pessimism(el, t, act, m):
+                if known_pessimism(el, t, act, m, meta):
                     r["known"].append(m)
                 else:
                     m["stimulus"] = ("H:" if "meta" in t else "") + circ.stim_of(t)
@@ -260,11 +260,11 @@ def analyse(did, out):
     return r
 
 
-def known_pessimism(el, t, act, m):
+def known_pessimism(el, t, act, m, meta=None):
     """the known finding `mux-undefined-selector-case-others`: the VHDL is only LESS defined than the simulator (no defined
     bit contradicts) and the difference disappears when a CASE whose selector contains a metavalue merges its branches like
     Node_Multiplexer does instead of taking WHEN OTHERS (that switch changes nothing for fully defined selectors)"""
-    return (not m["contradiction"]) and S.replay_trace(el, t, reset_active=act, case_merge=True) is None
+    return (not m["contradiction"]) and S.replay_trace(el, t, reset_active=act, case_merge=True, meta=meta) is None
 
 
 def reset_polarity(el):
@@ -431,14 +431,15 @@ def main():
         el = P.load(vhdl_files(d / did))
         act = reset_polarity(el)
         mf = d / f"{did}.meta"
-        nres = len([x for x in dict(x.split("=", 1) for x in mf.read_text().split()).get("resets", "-").split(",") if x != "-"]) if mf.exists() else 1
+        meta = dict(x.split("=", 1) for x in mf.read_text().split()) if mf.exists() else {}
+        nres = len([x for x in meta.get("resets", "-").split(",") if x != "-"]) if mf.exists() else 1
         todo = list(S.parse_htraces(d / f"{did}.htrace").items()) + (list(circ.parse_traces(d / f"{did}.trace").items()) if nres <= 1 else [])
         for tag, t in todo:
             if tag == "SKIP":
                 continue
-            m = S.replay_trace(el, t, reset_active=act)
+            m = S.replay_trace(el, t, reset_active=act, meta=meta)
             if m:
-                if known_pessimism(el, t, act, m):
+                if known_pessimism(el, t, act, m, meta):
                     continue
                 m["trace"] = tag
                 m["stimulus"] = ("H:" if "meta" in t else "") + circ.stim_of(t)
